@@ -134,6 +134,29 @@ def check_da(ctx, rule):
     return R
 
 
+def _sign_param(G):
+    """Index of the parameter of the POSIX offset scanner that multiplies the value it stores through its out-parameter
+    (`*offset = sign * (...)`, the factor possibly cast), or None."""
+    ks = [k for k in G.defs if k[0] == 'cctz::ParseOffset' and G.defs[k][0].name == 'time_zone_posix.cc']
+    if len(ks) != 1:
+        return None
+    u, f = G.defs[ks[0]]
+    ps = params_of(f)
+    for x in walk(f):
+        if x.get('kind') == 'BinaryOperator' and x.get('opcode') == '=' and peel(kids(x)[0]).get('kind') == 'UnaryOperator' and \
+                peel(kids(x)[0]).get('opcode') == '*':
+            r = peel(kids(x)[1])
+            if r is None or r.get('kind') != 'BinaryOperator' or r.get('opcode') != '*':
+                continue
+            for fac in kids(r):
+                y = peel(fac, explicit=True)
+                if y is not None and y.get('kind') == 'DeclRefExpr' and (y.get('referencedDecl') or {}).get('kind') == 'ParmVarDecl':
+                    idx = [i for i, p_ in enumerate(ps) if p_['id'] == y['referencedDecl'].get('id')]
+                    if idx:
+                        return idx[0]
+    return None
+
+
 def run(ctx):
     G = ctx.G
     # ---- C16-da
@@ -224,9 +247,15 @@ def run(ctx):
                   'explicitly given value' % (bad[0] if bad else '(no default / no explicit path)'), construct=construct,
                   detail='%d paths end with the default, %d with the explicit value' % (n_def, n_exp))
     fo = Folder(u)
+    sign_idx = _sign_param(G)
     for c in calls + t_calls:
         args = call_args(c)
-        sign = fo.fold(args[3]) if len(args) == 5 else None
+        sign = fo.fold(args[sign_idx]) if sign_idx is not None and sign_idx < len(args) else None
+        if sign is None and sign_idx is not None and sign_idx < len(args):
+            # an enumerator of a scoped enumeration (cast to int where it is applied)
+            a_ = peel(args[sign_idx])
+            if a_ is not None and a_.get('kind') == 'DeclRefExpr' and (a_.get('referencedDecl') or {}).get('kind') == 'EnumConstantDecl':
+                sign = fo.enum_value(a_['referencedDecl'].get('id'))
         dest = Keys(c['_u']).key(args[-1])
         is_zone = dest.endswith('_offset)')
         want_sign = -1 if is_zone else 1
@@ -234,7 +263,6 @@ def run(ctx):
                   'the %s is parsed with sign %s; POSIX zone offsets are inverted (west positive) and rule times are not'
                   % ('zone offset' if is_zone else 'rule time', sign), construct='sign:%s' % dest.split('#')[-1][12:],
                   detail='sign argument %s' % sign)
-        lo, hi = (fo.fold(args[1]), fo.fold(args[2])) if len(args) == 5 else (None, None)
     ctx.minimum('C16-default', 2)
     ctx.minimum('C16-sign', 3)
 
